@@ -281,32 +281,38 @@ class World:
         self.d = d
         self.objs = []
         self.recipes = []
-        self.mag = []
-        self.leaf_ids = {}
+        self.mag = []     # upper bound on the norm / Lipschitz constant of each object (product of operand norms)
+        self.magi = []    # the same for the inverse: bounds how far an object can have shrunk
 
     def add_atom(self, recipe):
         o = build(recipe, self.objs)
         self.recipes.append(recipe)
         return self.add(o, atom=True)
 
-    def add(self, o, atom=False, mag=None):
+    def add(self, o, atom=False, mag=None, magi=None):
         self.objs.append(o)
         if mag is None:
-            mag = self.atom_mag(o)
+            mag, magi = self.atom_mag(o)
         self.mag.append(mag)
+        self.magi.append(magi)
         return len(self.objs) - 1
 
     def atom_mag(self, o):
         import numpy as np
         if is_family(o):
-            return max(1.0, float(np.abs(o.h_matrix).sum(axis=1).max()))
+            try:
+                inv = float(np.abs(np.linalg.inv(o.h_matrix)).sum(axis=1).max())
+            except Exception:
+                inv = float("inf")
+            return max(1.0, float(np.abs(o.h_matrix).sum(axis=1).max())), max(1.0, inv)
         if is_chain(o):
-            m = 1.0
+            m, mi = 1.0, 1.0
             for t in o.transforms:
                 i = self.index_of(t)
                 m *= self.mag[i] if i is not None else 4.0
-            return m
-        return 4.0
+                mi *= self.magi[i] if i is not None else 4.0
+            return m, mi
+        return 4.0, 4.0
 
     def index_of(self, o):
         for i, x in enumerate(self.objs):
@@ -426,36 +432,39 @@ def seq_apply(first, second, X):
         return type(e).__name__, None, None
 
 
-def honest(name, M):
-    """does the matrix really belong to the reported class?  (oracle transcription of the class meanings;
-    "is zero" = below 1e-9 relative to the size of the block it sits in, "is non-zero" = above that)"""
+def honest(name, M, err=0.0):
+    """does the matrix really belong to the reported class?  (oracle transcription of the class meanings).
+    `err` is an upper bound on the absolute rounding error the entries can carry (from the history of the
+    object); "is zero" = below 1e-9 relative to the quantity it is compared with, plus that bound; "is non-zero"
+    is tested exactly (degenerate scales are the business of the invertibility check)."""
     import numpy as np
     base = BASE.get(name, name)
     if base == "Homogeneous":
         return True
     d = M.shape[0] - 1
     L, t = M[:d, :d], M[:d, d]
-    tol_m = 1e-9 * (1.0 + float(np.abs(M).max()))
-    sl = 1.0 + float(np.abs(L).max())
-    tol_l, tol_g = 1e-9 * sl, 1e-9 * sl * sl
+    tol_m = 1e-9 * (1.0 + float(np.abs(M).max())) + err
+    sl = float(np.abs(L).max())
     if not (np.abs(M[d, :d]).max() <= tol_m and abs(M[d, d] - 1) <= tol_m):
         return False
     if base == "Affine":
         return True
     G = L.T.dot(L)
+    gerr = 4.0 * d * (sl + err) * err
     if base == "Similarity":
         lam = float(np.trace(G)) / d
-        return lam > tol_g and np.abs(G - lam * np.eye(d)).max() <= tol_g
+        return lam > 0 and np.abs(G - lam * np.eye(d)).max() <= 1e-9 * lam + gerr
     if base == "Rotation":
-        return np.abs(G - np.eye(d)).max() <= tol_g and np.abs(t).max() <= tol_m
+        return np.abs(G - np.eye(d)).max() <= 1e-9 + gerr and np.abs(t).max() <= tol_m
     if base == "Translation":
-        return np.abs(L - np.eye(d)).max() <= tol_l
+        return np.abs(L - np.eye(d)).max() <= 1e-9 + err
     if base == "UniformScale":
         s = L[0, 0]
-        return abs(s) > tol_l and np.abs(L - s * np.eye(d)).max() <= tol_l and np.abs(t).max() <= tol_m
+        return s != 0 and np.abs(L - s * np.eye(d)).max() <= 1e-9 * abs(s) + err and np.abs(t).max() <= tol_m
     if base == "NonUniformScale":
         dg = np.diag(L)
-        return np.abs(dg).min() > tol_l and np.abs(L - np.diag(dg)).max() <= tol_l and np.abs(t).max() <= tol_m
+        return (np.abs(dg).min() > 0 and np.abs(L - np.diag(dg)).max() <= 1e-9 * float(np.abs(dg).max()) + err
+                and np.abs(t).max() <= tol_m)
     return False
 
 
@@ -507,11 +516,13 @@ def exec_stmt(ctx, w, stmt, X, rp, site_prefix="C03"):
     rp = dict(rp, failing_statement=[op, ia, ib], operand_kinds=[ka, kb])
     sig = "%s/%s(%s,%s)" % (site_prefix, op, ka, kb)
     mag = w.mag[ia] * w.mag[ib]
+    magi = w.magi[ia] * w.magi[ib]
     # what the law prescribes, evaluated before the call on the unchanged operands
     exp, Xok, wmin = seq_apply(first, second, X)
     before = [digest(o) for o in w.objs]
     fam_pair = is_family(a) and is_family(b)
-    honest_before = (not is_family(a) or honest(ka, a.h_matrix)) and (not is_family(b) or honest(kb, b.h_matrix))
+    honest_before = ((not is_family(a) or honest(ka, a.h_matrix, 1e-12 * w.mag[ia]))
+                     and (not is_family(b) or honest(kb, b.h_matrix, 1e-12 * w.mag[ib])))
     try:
         res = getattr(a, meth)(b)
         err = None
@@ -523,6 +534,10 @@ def exec_stmt(ctx, w, stmt, X, rp, site_prefix="C03"):
         res, err = None, "other:" + type(e).__name__
     after = [digest(o) for o in w.objs]
     changed = [i for i in range(len(before)) if before[i] != after[i]]
+
+    # failures that involve an operand an earlier accepted in-place call already left dishonest get their own
+    # pattern, so that they can be told apart from failures on honest operands
+    sfx = "" if honest_before else "/operand-dishonest-after-inplace"
 
     def law(obj, site):
         if isinstance(exp, str):
@@ -545,7 +560,7 @@ def exec_stmt(ctx, w, stmt, X, rp, site_prefix="C03"):
         good = close_arrays(got, exp, mag * (1.0 + float(np.abs(X).max())), 1.0 / min(1.0, wmin) ** 2)
         if not good:
             j = int(np.argmax(np.abs(got - exp).max(axis=1))) if got.shape == exp.shape else 0
-            ctx.fail(site, "map-differs",
+            ctx.fail(site, "map-differs" + sfx,
                      "%s: composite maps %s to %s, the law prescribes %s" % (
                          sig, Xok[j].tolist(), got[j].tolist(), exp[j].tolist()),
                      dict(rp, probe=Xok[j].tolist(), observed=got[j].tolist(), required=exp[j].tolist()))
@@ -573,16 +588,16 @@ def exec_stmt(ctx, w, stmt, X, rp, site_prefix="C03"):
                 ctx.check(not isinstance(res, HomogFamilyAlignment), "C03/compose.closed", "alignment-result",
                           "%s returned an alignment (%s)" % (sig, kind_of(res)), rp)
                 if honest_before:
-                    ctx.check(honest(kind_of(res), res.h_matrix), "C03/compose.honest", "class=" + kind_of(res),
+                    ctx.check(honest(kind_of(res), res.h_matrix, 1e-12 * mag), "C03/compose.honest", "class=" + kind_of(res),
                               "%s reports %s but its matrix is not one: %s" % (sig, kind_of(res), res.h_matrix.tolist()),
                               dict(rp, result_class=kind_of(res), result_matrix=res.h_matrix.tolist()))
                 else:
                     ctx.count("honesty-skipped:operand-already-dishonest")
                 da, db, dr = (float(np.linalg.det(m.h_matrix)) for m in (a, b, res))
                 ctx.check(dr != 0.0 and abs(dr - da * db) <= 1e-3 * abs(da * db),
-                          "C03/compose.invertible", "determinant", "%s: det of the result is %r, operands %r, %r"
+                          "C03/compose.invertible", "determinant" + sfx, "%s: det of the result is %r, operands %r, %r"
                           % (sig, dr, da, db), rp)
-        idx = w.add(res, mag=mag)
+        idx = w.add(res, mag=mag, magi=magi)
         return ("r", idx)
     # in-place
     if err == "rejected" or err == "noMethod":
@@ -599,10 +614,10 @@ def exec_stmt(ctx, w, stmt, X, rp, site_prefix="C03"):
     ctx.check(kind_of(w.objs[ia]) == ka, "C03/inplace.class", "class-changed", "%s changed the receiver's class" % sig, rp)
     law(a, "C03/inplace.law")
     if fam_pair and honest_before:
-        ctx.check(honest(ka, a.h_matrix), "C03/inplace.honest", "receiver=%s" % BASE.get(ka, ka),
+        ctx.check(honest(ka, a.h_matrix, 1e-12 * mag), "C03/inplace.honest", "receiver=%s" % BASE.get(ka, ka),
                   "%s was accepted and leaves a %s whose matrix is not one: %s" % (sig, ka, a.h_matrix.tolist()),
                   dict(rp, receiver_class=ka, receiver_matrix=a.h_matrix.tolist()))
-    w.mag[ia] = mag
+    w.mag[ia], w.magi[ia] = mag, magi
     return ("i",)
 
 
@@ -715,7 +730,7 @@ def run_program(ctx, d, recipes, stmts, cid, table_wire, pending, what):
 def allowed_stmt(w, op, ia, ib):
     """generator side conditions (documented in INFO): magnitude cap; no chain that would contain itself"""
     a, b = w.objs[ia], w.objs[ib]
-    if w.mag[ia] * w.mag[ib] > MAG_CAP:
+    if w.mag[ia] * w.mag[ib] > MAG_CAP or w.magi[ia] * w.magi[ib] > MAG_CAP:
         return False
     if OPS[op][2]:
         if is_chain(a) and reaches(b, a):
@@ -758,9 +773,9 @@ def gen_program(ctx, d, n_atoms, n_stmts, inplace_bias=0.4):
                 warnings.simplefilter("ignore")
                 res = getattr(a, OPS[op][0])(w.objs[ib])
             if not OPS[op][2]:
-                w.add(res, mag=w.mag[ia] * w.mag[ib])
+                w.add(res, mag=w.mag[ia] * w.mag[ib], magi=w.magi[ia] * w.magi[ib])
             else:
-                w.mag[ia] = w.mag[ia] * w.mag[ib]
+                w.mag[ia], w.magi[ia] = w.mag[ia] * w.mag[ib], w.magi[ia] * w.magi[ib]
         except Exception:
             pass
     return recipes, stmts
@@ -1046,16 +1061,16 @@ def run(ctx):
     rows2, rows3 = ctx._c03_rows
     w2, w3 = extract_c03.wire(rows2), extract_c03.wire(rows3)
     pending = []
-    for rep in range(ctx.n(1, 4)):
+    for rep in range(ctx.n(1, 6)):
         pair_battery(ctx, 2, w2, pending, "p%d_" % rep)
         pair_battery(ctx, 3, w3, pending, "p%d_" % rep)
         sequel_battery(ctx, 2, w2, pending, "s%d_" % rep)
         sequel_battery(ctx, 3, w3, pending, "s%d_" % rep)
-    random_programs(ctx, ctx.n(150, 1500), {2: w2, 3: w3}, pending, "g", long=not ctx.quick())
+    random_programs(ctx, ctx.n(150, 4000), {2: w2, 3: w3}, pending, "g", long=not ctx.quick())
     lines, ap_expect, dc_expect = [], {}, {}
-    apply_cases(ctx, ctx.n(80, 600), {2: w2, 3: w3}, lines, ap_expect)
-    decompose_cases(ctx, ctx.n(60, 500), lines, dc_expect)
-    withdims_battery(ctx, ctx.n(40, 300))
+    apply_cases(ctx, ctx.n(80, 1500), {2: w2, 3: w3}, lines, ap_expect)
+    decompose_cases(ctx, ctx.n(60, 1200), lines, dc_expect)
+    withdims_battery(ctx, ctx.n(40, 600))
     model = flush(ctx, pending, lines)
     check_aux_replies(ctx, model, ap_expect, dc_expect)
     return ctx.finish(search)
